@@ -38,12 +38,18 @@ where
     self.fn_next.call_if_available(x);
   }
   pub fn error(&self, x: RxError) {
-    self.fn_next.clear();
+    // the next slot arbitrates between terminal notifications racing on
+    // different threads: only the caller that empties it delivers
+    if !self.fn_next.take() {
+      return;
+    }
     self.fn_complete.clear();
     self.fn_error.call_and_clear_if_available(x);
   }
   pub fn complete(&self) {
-    self.fn_next.clear();
+    if !self.fn_next.take() {
+      return;
+    }
     self.fn_error.clear();
     self.fn_complete.call_and_clear_if_available(());
   }
